@@ -715,9 +715,10 @@ example : (kaldiRun ko (kutts ++ [{ id := 15, chans := 1, samples := 9, rate := 
     = { written := [], outcome := .raised .runtimeError 15 } := by decide
 
 /-- `--channel -2` on a mono file is outside `KWf`: Python raises `IndexError` after `10` was written -/
-example : kaldiRun { ko with channel := -2 } kutts =
-    { written := [ { id := 10, rows := 5,
-        term := .cast32 (.post 9 (.post 2 (.full (.pre 7 (.pre 3 (.pre 7 (.pick 0 (.sig 10)))))))) } ],
+example : kaldiRun { ko with channel := (-2 : Int) } kutts =
+    { written :=
+        [ { id := 10, rows := 5,
+            term := .cast32 (.post 9 (.post 2 (.full (.pre 7 (.pre 3 (.pre 7 (.pick 0 (.sig 10)))))))) } ]
       outcome := .raised .indexError 11 } := by decide
 
 private def tlines : List MapLine :=
@@ -741,7 +742,7 @@ example : (torchRun topts tlines) =
 example : (torchRun { topts with manifest := some [20, 22] } (tlines.take 4)).written.map (fun s => (s.id, s.seed))
     = [(21, 101)] := by decide
 
-example : torchRun { topts with computer := none, channel := -1, manifest := none }
+example : torchRun { topts with computer := none, channel := (-1 : Int), manifest := none }
       [ .entry { id := 1, shape := .vec 3, readable := true }, .entry { id := 2, shape := .mat 1 0, readable := true } ] =
     { written := [ { id := 1, rows := 3, seed := 100, term := .cast32 (.post 6 (.column (.pre 5 (.pre 4 (.sig 1))))) },
                    { id := 2, rows := 0, seed := 101, term := .cast32 (.column (.pre 5 (.pre 4 (.pick 0 (.sig 2))))) } ],
